@@ -54,3 +54,7 @@ contract("monkeytype.config:Config.type_rewriter", props=["C07"], theories=_TH2,
 contract("monkeytype.config:DefaultConfig.code_filter", props=["C17"], theories=_TH2, params={"self": "Config"}, result="Filter",
          # C17: the default configuration filters with default_code_filter (proved against the path specification)
          ensures={"post:default-filter": "result is default_code_filter"})
+contract("monkeytype.config:Config.trace_logger", props=["C17", "C09"], theories=_TH2 + ["sql"], pure=False,
+         params={"self": "Config"}, result="StoreLogger",
+         # the default logger is a fresh CallTraceStoreLogger on the configuration's own store, with nothing buffered: what it drops (__main__) and flushes is in its contracts
+         ensures={"post:store-logger": "result is not None and not preexisting(result) and result.store is config_store(self) and len(result.traces) == 0"})
